@@ -151,12 +151,19 @@ def run(ctx):
     loopblocks = set()
     for h, blocks, srcs in ls:
         loopblocks |= set(blocks)
+    cursor_writes = set(a_["bb"] for a_ in field_accesses(prog, TAI, "toi", funcs=[fa]) if a_["kind"] in ("assign", "assign_sub", "borrow_mut"))
     for a in field_accesses(prog, TAI, "toi", funcs=[fa]):
         if a["kind"] not in ("assign", "assign_sub", "borrow_mut"):
             continue
         key = "allocate writes the cursor only inside its search loop"
         if a["bb"] in loopblocks:
             r3.ok(key, "self.toi = %s" % show(a["value"], 50), loc(a["sp"]))
+        elif flow.must_pass(a["bb"], fa.body.return_blocks(), lambda n_: (n_[0] == "e" and any(
+                f_[0] == "true" and not tr_ and "contains" in show(f_[1]) and "toi_reserved" in show(f_[1]) and "self.toi" in show(f_[1])
+                for (f_, tr_) in flow.edge_facts(n_))) or (n_[0] == "b" and n_[1] != a["bb"] and n_[1] in cursor_writes))[0]:
+            # a rotated loop (`advance(); while reserved(cursor) { advance(); }`): the write sits before the loop, but every path from it to a
+            # return still passes the `!toi_reserved.contains(&self.toi)` exit (or a later write, which has the same obligation)
+            r3.ok(key, "self.toi = %s (followed by the free-slot test on every path to the return)" % show(a["value"], 50), loc(a["sp"]))
         else:
             r3.violation(key, "self.toi = %s after the search loop was left: the loop exit established `!toi_reserved.contains(&self.toi)` for the old "
                               "value only, the new cursor may be a TOI that is still reserved or attached to a live object" % show(a["value"], 50), loc(a["sp"]))
